@@ -94,7 +94,8 @@ def rule_key_complete(ctx: Ctx) -> None:  # noqa: C901, PLR0912, PLR0915
             t = norm(c)
             if "output_to_func" in t and any(n_ in t for n_ in names) and (isinstance(c, ast.BinOp) and isinstance(c.op, ast.BitAnd) or "isdisjoint" in t or "intersection" in t):
                 good = any_relation = True
-    ctx.tri("1-key-complete", kf, call, good and not bad_whole, bad_whole or not any_relation,
+    recognised = bool(supplied) or any("kwargs" in p_ for f in scopes for p_ in f.param_names())
+    ctx.tri("1-key-complete", kf, call, good and not bad_whole, bad_whole or (not any_relation and recognised and "flat_scope_kwargs" in run_.param_names()),
             "any supplied name that is a function output (single names of tuple outputs included) disables the key",
             "the supplied names are compared with whole output names (tuple outputs slip through)" if bad_whole else
             "no test relates the supplied names to the pipeline's outputs: a call that supplies an intermediate value still uses (and fills) the root-argument cache entry",
